@@ -384,6 +384,9 @@ func c04OperandAt(i, kind int, singleQuote bool) c04Operand {
 	case 1:
 		v := "n" + string(rune('a'+i))
 		return c04Operand{v, "n:" + v, false}
+	case 3: // number literals: what a constant-folding optimiser would like to regroup
+		v := string(rune('1' + i))
+		return c04Operand{v, "#" + v, true}
 	default:
 		v := "s" + string(rune('a'+i))
 		q := `"`
@@ -418,6 +421,11 @@ func c04Render(toks []c04Tok, ws int) string {
 				// a quote after a word would be scanned as part of the name: that space is not optional
 				startsWord := first == '$' || first == '"' || first == '\'' || (first >= 'a' && first <= 'z') || (first >= '0' && first <= '9')
 				if word(prev) && startsWord {
+					sb.WriteByte(' ')
+				}
+				// "1.2" is one number, "1..2" a range: the path operator next to a number literal needs its spaces
+				digit := func(b byte) bool { return b >= '0' && b <= '9' }
+				if (t.text == "." && digit(prev[len(prev)-1])) || (prev == "." && digit(first)) {
 					sb.WriteByte(' ')
 				}
 			case 1:
@@ -573,7 +581,7 @@ func init() {
 				// operand kinds: a repeating pattern of kinds (two for n<=3, vars only for n=4)
 				kinds := []int{0}
 				if n < 4 {
-					kinds = []int{c.Choose(3), c.Choose(3)}
+					kinds = []int{c.Choose(4), c.Choose(4)}
 				}
 				single := false
 				if kinds[0] == 2 || (len(kinds) > 1 && kinds[1] == 2) {
